@@ -176,8 +176,8 @@ let print_indexes (id : string) (cf : (n -> n -> string) option) (idxs : index_d
                  (match vid with None -> "-" | Some v -> string_of_n v)
                  (String.concat "" (List.map (fun s -> " " ^ s) parts))) entries)) idxs
 
-let dir_dump (id : string) (f : n list) (out : out_channel) =
-  match dp_dump f with
+let dir_dump_of (id : string) dumped (out : out_channel) =
+  match dumped with
   | Err e -> Printf.fprintf out "%s open %s\n" id (show_res_err e)
   | Ok idxs ->
     Printf.fprintf out "%s open OK\n" id;
@@ -274,14 +274,14 @@ let cmp_value (v : value res) (tok : string) : comparison option =
   | _ -> None
 
 let dir_case (c : case) (out : out_channel) =
-  let file = ref [] in
+  let dumped = ref (Err EFormat) in          (* the decoded pack, computed once per case *)
   let nfind = ref 0 in
   List.iter (fun l ->
     match l with
-    | ["file"; path] -> file := nbytes (read_file path); dir_dump c.id !file out
+    | ["file"; path] -> dumped := dp_dump (nbytes (read_file path)); dir_dump_of c.id !dumped out
     | "find" :: iname :: ordered :: keys ->
       let fi = !nfind in incr nfind;
-      (match dp_dump !file with
+      (match !dumped with
        | Err e -> Printf.fprintf out "%s find %d %s\n" c.id fi (show_res_err e)
        | Ok idxs ->
          let found = List.find_opt (fun r -> match r with
